@@ -2,13 +2,14 @@
 # Re-applies every recorded seeded change (seeded/<id>/patch.diff) to a scratch worktree of
 # /repo and requires the quick check of its property to report a violation.
 # usage: seed_regress.sh [id ...]     (default: all)
-cd /verif || exit 2
+cd "$(dirname "$0")/.." || exit 2
+root=$(pwd)
 ids="$*"
 [ -z "$ids" ] && ids=$(ls seeded | sort)
 miss=0
 for id in $ids; do
   prop=$(echo "$id" | cut -c1-3)
-  out=$(tools/try_seed.sh /verif/seeded/$id/patch.diff quick $prop 2>&1)
+  out=$(tools/try_seed.sh $root/seeded/$id/patch.diff quick $prop 2>&1)
   rc=$(echo "$out" | sed -n 's/^== .* rc=\([0-9]*\)$/\1/p' | head -1)
   nv=$(echo "$out" | grep -c "^VIOLATION property=$prop ")
   if [ "$rc" = "1" ] && [ "$nv" -ge 1 ]; then echo "caught  $id (rc=$rc, $nv violation sites)"; else echo "MISSED  $id (rc=$rc)"; miss=$((miss+1)); echo "$out" | tail -3; fi
